@@ -624,6 +624,59 @@ fn c11_orderer(b: &Board, spec: &PosSpec, job: usize) {
         c.make_move(*rng.pick(&kids));
         boards.push(c);
     }
+    // and one position with far more moves than any game position has (six to eight queens)
+    for _ in 0..40 {
+        let mut sq = ['.'; 64];
+        let mut put = |c: char, rng: &mut Rng| {
+            for _ in 0..30 {
+                let s = rng.below(64) as usize;
+                if sq[s] == '.' {
+                    sq[s] = c;
+                    return;
+                }
+            }
+        };
+        put('K', &mut rng);
+        put('k', &mut rng);
+        for _ in 0..(6 + rng.below(3)) {
+            put('Q', &mut rng);
+        }
+        put('r', &mut rng);
+        let mut fen = String::new();
+        for r in (0..8).rev() {
+            let mut empty = 0;
+            for f in 0..8 {
+                let c = sq[r * 8 + f];
+                if c == '.' {
+                    empty += 1;
+                } else {
+                    if empty > 0 {
+                        fen.push_str(&empty.to_string());
+                        empty = 0;
+                    }
+                    fen.push(c);
+                }
+            }
+            if empty > 0 {
+                fen.push_str(&empty.to_string());
+            }
+            if r > 0 {
+                fen.push('/');
+            }
+        }
+        fen.push_str(" w - - 0 1");
+        let Ok(p) = super::oracle::Pos::from_fen(&fen) else { continue };
+        if !p.is_sane() {
+            continue;
+        }
+        if let Ok(wide) = eng::load(&fen) {
+            if wide.get_all_moves().len() > 128 {
+                out::count("C11.orderings_of_more_than_128_moves", 1);
+                boards.push(wide);
+                break;
+            }
+        }
+    }
     for board in boards {
         let all = board.get_all_moves();
         let caps: Vec<Ply> = all.iter().filter(|m| m.is_capture()).copied().collect();
